@@ -179,6 +179,7 @@ class Gen:
         self.r = rng
         self.mode = mode
         self.docs = {}        # id -> doc (insertion order = dependency order)
+        self.mid_index_forms = rng.random() < 0.3
         self.feat = {}        # feature -> count
 
     def f(self, name):
@@ -332,6 +333,13 @@ class Gen:
             node = target
             for k in keys:
                 node = self.src_child(did, node, k) if node is not None else None
+            if self.mid_index_forms and self.r.random() < 0.25:
+                # an inserting / size-relative index form in the middle of the path
+                for j, k in enumerate(keys[:-1]):
+                    if k.startswith('@') and k[1:].isdigit():
+                        keys[j] = self.r.choice(['@before %s' % k[1:], '@after %s' % k[1:], '@before last', '@last'])
+                        self.f('patch:mid-path-index-form')
+                        break
             r = self.r.random()
             if node is None or r < 0.2:
                 keys = keys[:self.r.randint(0, len(keys))] + [self.r.choice(['n0', 'n1', 'a', 'b'])]
